@@ -221,6 +221,7 @@ def _inlined_for_discharge(F, f):
 def panic_obligations(F, res, roots, prop_rows, cg=None, grammar=None, crates=None, rule="PANIC", skip_fn=None, extra=()):
     """shared by C12/C13/C14/C16/C11: inventory + discharge; returns sites"""
     cg = cg or CallGraph(F)
+    discharge.CURRENT_F = F
     reach, n_fns, sites = e1.inventory(F, cg, roots, crates=crates)
     G, it = grammar if grammar else (None, None)
     rows = {r["key"]: r["reason"] for r in prop_rows}
@@ -292,6 +293,16 @@ def panic_obligations(F, res, roots, prop_rows, cg=None, grammar=None, crates=No
                 rows[key] = rows[alt[0]]
                 if alt[0] in row_prems:
                     row_prems[key] = row_prems[alt[0]]
+            else:
+                # the site moved to another function of the same crate (a helper split out of it): a premise-free row of
+                # the same kind / operation / detail whose own site is gone
+                import re as _re
+                m0 = _re.search(r"\btx3[a-z_]*", key)
+                sg = "|".join(key.split("|")[1:]).split("|#")[0]
+                alt2 = [k for k in rows if k not in all_keys and k not in row_prems and "|".join(k.split("|")[1:]).split("|#")[0] == sg
+                        and m0 and _re.search(r"\btx3[a-z_]*", k) and _re.search(r"\btx3[a-z_]*", k).group(0) == m0.group(0)]
+                if alt2:
+                    rows[key] = rows[alt2[0]] + " (row of a site that moved here)"
         if by is None and key in rows:
             used_rows.add(key)
             if key in row_prems:
